@@ -467,6 +467,8 @@ class spec_class:
                 method = helper_method(attr_spec, spec_cls=spec_cls)
                 methods[method.method_name] = method
         for attr_spec in renamed_inherited:
+            if attr_spec.helper_methods is None:
+                continue  # (an attribute that is only known as the key has no helpers)
             for helper_method in attr_spec.collection_mutator_type.HELPER_METHODS:
                 method = helper_method(attr_spec, spec_cls=spec_cls)
                 methods[method.method_name] = method
